@@ -61,8 +61,42 @@ def targeted(broken, disagreements, rng):
 
 
 # ------------------------------------------------------------ validity
+def _pval6_ok(v):
+    if isinstance(v, list) and len(v) == 3 and v[0] == 'd':
+        from decimal import Decimal, InvalidOperation
+        try:
+            return isinstance(v[1], int) and isinstance(v[2], str) and Decimal(v[2]) == v[1] and str(Decimal(v[2])) == v[2]
+        except (InvalidOperation, ValueError):
+            return False
+    return P17._pval_ok(v)
+
+
+def _valid_hist(case):
+    n, p = case['route']
+    if not (isinstance(n, str) and n and isinstance(p, str) and P17._no_surrogate(p)) or P17._external(p) \
+            or P17.parse_pattern(p) is None:
+        return False
+    if not (isinstance(case['calls'], list) and 1 <= len(case['calls']) <= 6):
+        return False
+    for kw in case['calls']:
+        if not (isinstance(kw, list) and len({e[0] for e in kw}) == len(kw)):
+            return False
+        for e in kw:
+            if not (isinstance(e, list) and len(e) == 2 and isinstance(e[0], str) and e[0] and not e[0].startswith('_')):
+                return False
+            v = e[1]
+            if v[0] == 'v':
+                if not (len(v) == 2 and _pval6_ok(v[1])):
+                    return False
+            elif not (v[0] == 'q' and len(v) == 3 and v[2] in ('list', 'tuple') and all(_pval6_ok(x) for x in v[1])):
+                return False
+    return True
+
+
 def valid(case):
     try:
+        if case.get('kind') == 'hist':
+            return _valid_hist(case)
         rs = case['routes']
         if not (isinstance(rs, list) and 1 <= len(rs) <= 6 and len({r[0] for r in rs}) == len(rs)):
             return False
@@ -93,7 +127,31 @@ _W = re.compile(r'\w')
 _D = re.compile(r'\d')
 
 
+def _py_pval6(v):
+    if v[0] == 'd':
+        from decimal import Decimal
+        return Decimal(v[2])
+    return P17._py_pval(v)
+
+
+def _py_kwval6(v):
+    return _py_pval6(v[1]) if v[0] == 'v' else P17._py_seq(v[2], [_py_pval6(x) for x in v[1]])
+
+
+def _w_kwval6(v):
+    if v[0] == 'v':
+        return [0, P17._w_pval(v[1])]
+    return [1, [P17._w_pval(x) for x in v[1]], str(_py_kwval6(v))]
+
+
 def _texts(case):
+    if case.get('kind') == 'hist':
+        out = [case['route'][1]]
+        for kw in case['calls']:
+            for _k, v in kw:
+                for x in ([v[1]] if v[0] == 'v' else v[1]):
+                    out.append(x[1] if x[0] == 's' else bytes(x[1]).decode('utf-8', 'ignore') if x[0] == 'b' else str(x[-1]))
+        return out
     out = [p for _n, p in case['routes']] + [case['env']['script_name']]
 
     def pv(v):
@@ -121,6 +179,8 @@ def _oracle(case):
 
 
 def to_wire(case):
+    if case.get('kind') == 'hist':
+        return [1, _oracle(case), list(case['route']), [[[k, _w_kwval6(v)] for k, v in kw] for kw in case['calls']]]
     return [_oracle(case), [[n, p] for n, p in case['routes']], case['target'], P17._w_env(case['env']),
             [P17._w_pval(x) for x in case['elements']], P17._w_ov(case['ov']), P17._w_kw(case['kw'])]
 
@@ -139,7 +199,34 @@ def _canon_back(b):
     return [out, [_canon_dict(own[0])] if own else []]
 
 
+def _spec_one(spec):
+    if not spec:
+        return None
+    if spec == [1]:
+        return ['keyerror']
+    _tag, path, own, sel = spec
+    sel = sel[0] if sel else None
+    if sel and len(sel) == 3 and sel[0] == 1:
+        sel = [1, sel[1], _canon_dict(sel[2])]
+    return ['route', path, [_canon_dict(own[0])] if own else [], [sel] if sel else []]
+
+
+def _from_wire_hist(case, raw):
+    if not (isinstance(raw, list) and len(raw) == 2 and isinstance(raw[0], list) and len(raw[0]) == 2):
+        return {'model': ['MODEL-BAD', raw], 'spec': None}
+    (st, calls), specs = raw
+    if st != 0:
+        _last['spec'] = None
+        return {'model': ['unsupported', [st]], 'spec': None}
+    model = [[u, [_canon_dict(own[0])] if own else []] for u, own in calls]
+    sp = ['hist', [_spec_one(x) or [] for x in specs]]
+    _last['spec'] = sp
+    return {'model': model, 'spec': sp}
+
+
 def from_wire(case, raw):
+    if case.get('kind') == 'hist':
+        return _from_wire_hist(case, raw)
     if not (isinstance(raw, list) and len(raw) == 2 and isinstance(raw[0], list) and len(raw[0]) == 4):
         return {'model': ['MODEL-BAD', raw], 'spec': None}
     (sts, u, p, back), spec = raw
@@ -265,9 +352,38 @@ def _route_back(case, cfg, app, url):
     return [out, own]
 
 
+def _run_hist(case):
+    from urllib.parse import unquote_to_bytes
+    name, pattern = case['route']
+    cfg, app = _app({'routes': [[name, pattern]]})
+    environ = {'wsgi.url_scheme': 'http', 'SERVER_NAME': 's', 'SERVER_PORT': '80', 'SCRIPT_NAME': '', 'PATH_INFO': '/',
+               'REQUEST_METHOD': 'GET', 'QUERY_STRING': ''}
+    req = _impl['Request'](environ)
+    req.registry = cfg.registry
+    # the history is the case: start from an empty segment cache (the module-level dict of pyramid.traversal)
+    _impl['mods'][1]._segment_cache.clear()
+    route = cfg.get_routes_mapper().get_route(name)
+    out = []
+    for kw in case['calls']:
+        u = P17._call(lambda: req.route_path(name, **{k: _py_kwval6(v) for k, v in kw}))
+        own = []
+        if u[0] == 0:
+            try:
+                path = unquote_to_bytes(u[1]).decode('utf-8') or '/'
+                m = route.match(path)
+                if m is not None:
+                    own = [_dict_obs(m)]
+            except UnicodeDecodeError:
+                pass
+        out.append([u, own])
+    return out
+
+
 def run_impl(case):
     if not _impl:
         setup('quick')
+    if case.get('kind') == 'hist':
+        return _run_hist(case)
     cfg, app = _app(case)
     e = case['env']
     environ = {'wsgi.url_scheme': e['scheme'], 'SERVER_NAME': e['server_name'], 'SERVER_PORT': e['server_port'],
@@ -319,8 +435,36 @@ def expected_authority(e):
     return e['scheme'] + '://' + host + (':' + port if port and port != default else '')
 
 
+def _judge_hist(case, obs, spec):
+    from urllib.parse import unquote_to_bytes
+    if spec is None or spec[0] != 'hist' or not isinstance(obs, list) or len(obs) != len(spec[1]):
+        return None, 'not specified'
+    said = None
+    for i, ((u, own), sp) in enumerate(zip(obs, spec[1])):
+        if not sp:
+            continue
+        said = True
+        if sp[0] == 'keyerror':
+            if u != [1, ERR['KeyError']]:
+                return False, 'call %d: KeyError expected, got %r' % (i, u)
+            continue
+        if u[0] != 0:
+            return False, 'call %d: a path was expected, got %r' % (i, u)
+        try:
+            got = unquote_to_bytes(u[1]).decode('utf-8')
+        except UnicodeDecodeError:
+            return False, 'call %d: path is not UTF-8' % i
+        if got != sp[1]:
+            return False, 'call %d: the path decodes to %r, the values of THIS call give %r' % (i, got, sp[1])
+        if sp[2] and own != sp[2]:
+            return False, 'call %d: the route matches its own URL to %r, supplied values are %r' % (i, own, sp[2])
+    return said, None
+
+
 def judge(case, obs, spec):
     """-> (True | False | None, reason)"""
+    if case.get('kind') == 'hist':
+        return _judge_hist(case, obs, spec)
     if spec is None or not isinstance(obs, list) or len(obs) != 3:
         return None, 'not specified'
     u, p, back = obs
@@ -375,13 +519,29 @@ def classify(case, obs, spec):
 
 
 def _target_pattern(case):
+    if case.get('kind') == 'hist':
+        return case['route'][1]
     for n, p in case['routes']:
         if n == case['target']:
             return p
     return None
 
 
+def _hist_equal_keys(case):
+    seen = {}
+    for kw in case['calls']:
+        for _k, v in kw:
+            if v[0] == 'q':
+                for x in v[1]:
+                    if x[0] in ('i', 'n', 'd'):
+                        seen.setdefault(x[1], set()).add(str(x[-1]) if x[0] != 'i' else str(x[1]))
+    return any(len(p) > 1 for p in seen.values())
+
+
 def nontrivial(case, obs):
+    if case.get('kind') == 'hist':
+        return isinstance(obs, list) and len(obs) >= 2 and all(len(o) == 2 and o[0][0] == 0 and o[1] for o in obs) \
+            and _hist_equal_keys(case)
     if not (isinstance(obs, list) and len(obs) == 3):
         return False
     tp = _target_pattern(case)
@@ -395,6 +555,17 @@ def nontrivial(case, obs):
 
 def kinds(case, obs):
     k = []
+    if case.get('kind') == 'hist':
+        k = ['hist', 'hist-calls-%d' % len(case['calls'])]
+        if _hist_equal_keys(case):
+            k.append('hist-equal-keys-printing-differently')
+        if isinstance(obs, list) and all(len(o) == 2 for o in obs):
+            k.append('hist-all-ok' if all(o[0][0] == 0 for o in obs) else 'hist-some-error')
+            k.append('hist-all-matched' if all(o[1] for o in obs) else 'hist-some-unmatched')
+        sp = _last.get('spec')
+        if sp and sp[0] == 'hist':
+            k.append('hist-spec-with-dict' if all(x and x[0] == 'route' and x[2] for x in sp[1]) else 'hist-spec-partial')
+        return k
     if not (isinstance(obs, list) and len(obs) == 3):
         return ['harness-exc']
     u, p, back = obs
